@@ -100,7 +100,8 @@ PROPS = {
         [K("utils.py::_resolve_dotted@%d" % n) for n in (1, 2, 3)],
         ["the Python sub-grammar (comprehensions, lambdas) and NameLookupRewriteVisitor scoping",
          "tales.transform_attribute's rewrite of a.b into lookup_attr(a, 'b') (lookup_attr itself is under contract); ExpressionParser prefix dispatch",
-         "import:/string:/structure: prefixes"]),
+         "string:/structure: prefixes beyond the schemas; import: is decided for dotted names of one to three "
+         "components (utils._resolve_dotted@1..3), relative names (never used by the tree) are not"]),
     "C05": k3prop(
         "Emitted save/assign/restore brackets of tal:define and tal:repeat are proved to restore the "
         "outer binding (or undefinedness) on normal exit, globals are proved to persist in scope and "
@@ -158,11 +159,12 @@ PROPS = {
         TAL_BASIC + S_TALES + S_INTERP + [K("k3::S-OnError-keep"), K("k3::S-I18nTarget"),
                                             K("k3::S-UseExternal"), K("k3::S-MacroUseInternal"),
                                             K("k3::S-MacroUseInternal-after-expr"),
-                                            K("template.py::BaseTemplate.render"), K("tal.py::RepeatDict.__call__"),
+                                            K("template.py::BaseTemplate.render"), K("exc.py::ExceptionFormatter.__call__@records"), K("tal.py::RepeatDict.__call__"),
                                             K("utils.py::lookup_attr"),
                                             U('pyvc.frames', 'render_write_frame', 'render.write_frame')],
         ["create_formatted_exception itself (dynamic class creation; outside the subset)",
-         "ExceptionFormatter record order (only: formatting stores nothing on the formatter)"]),
+         "ExceptionFormatter: the record loop is under a per-iteration block contract (three lines per record, "
+         "in record order); the argument listing, the source excerpt and UnicodeDecodeError stream lines are not"]),
     "C03": {
         "technique": TECH + "; REGEX-STRUCT (facts about the lexer/dissection patterns proved on their "
                      "parse trees)",
@@ -330,7 +332,7 @@ PROPS = {
                       "5-character class. Not yet decided: the sinks (K3) and the choice of quote entity.",
         "units": K2Q + [K("zpt/loader.py::TemplateLoader.load"), K("loader.py::cache.load"),
                         # the sinks: every schema that inserts a value states which __quote call it goes through
-                        K("k3::S-Content"), K("k3::S-Content-translate"), K("k3::S-Attribute"),
+                        K("k3::S-Content"), K("k3::S-Content-translate"), K("k3::S-Attribute"), K("k3::S-Attribute-quotes"), K("k3::S-Attribute-dict-first"),
                         K("k3::S-Interp-text"), K("k3::S-Interp-percent"), K("k3::S-Comment-interp"),
                         K("k3::S-Cdata-then-text"),
                         K("k3::S-OnError-keep")],
@@ -354,8 +356,8 @@ PROPS = {
                   K("template.py::BaseTemplateFile.read@body"), K("zpt/template.py::PageTextTemplateFile.render"),
                   U('pyvc.regexlang', 'meta_unit', 're_meta.order'),
                   U('pyvc.frames', 'render_write_frame', 'render.write_frame')],
-        "not_decided": ["RE_META fixes the attribute order http-equiv before content (finding D16)",
-                        "PageTemplate.parse itself; package-relative files"],
+        "not_decided": ["PageTemplate.parse itself; package-relative files",
+                        "UnicodeEncodeError / LookupError of the output codec in PageTextTemplateFile.render"],
         "assumptions": COMMON_ASSUMPTIONS + ["bytes are modelled as strings of code points 0..255"],
     },
     "C08": {
@@ -379,8 +381,15 @@ PROPS = {
                       "source[pos:pos+len(token)] == token; line/column are proved consistent with pos.",
         "level_note": "Trusted: the axiom schemas for str/re builtins (conformance-tested each run), "
                       "CPython's re engine, the encoding of Python semantics in DESIGN.md 2.3. "
-                      "Not decided: 'valid templates are never rejected'; message formatting.",
-        "units": TOKEN + RESERVED + [K("k3::S-Strict-rejects"), K("k3::S-Deferred-twice"), K("parser.py::match_tag"),
+                      "Not decided: 'valid templates are never rejected'; message formatting. "
+                      "The statement parsers of tal.py (split_parts, parse_defines, parse_attributes) are covered "
+                      "by schemas for named error forms and by the bounded stand-ins B-SPLIT (texts and positions), "
+                      "B-ERRPOS (erroneous templates by family) and B-REJECT (labelled bounded, not counted). "
+                      "Known finding D26: offsets behind a character reference inside one statement value.",
+        "units": TOKEN + RESERVED + [K("k3::S-Define-reserved-after-escape"), K("k3::S-Attributes-invalid-after-escape"),
+                          K("k3::S-Define-reserved-after-entity"), U('bounded.units', 'split', 'B-SPLIT'),
+                          U('bounded.units', 'errpos', 'B-ERRPOS'),
+                          K("k3::S-Strict-rejects"), K("k3::S-Deferred-twice"), K("parser.py::match_tag"),
                           U('pyvc.frames', 'cook_error_frame', '_cook.error_frame'),
                           U('pyvc.regexlang', 'statement_unit', 'tal.statement_patterns'),
                           U('bounded.units', 'reject', 'B-REJECT'),
